@@ -203,6 +203,17 @@ P('C15', _bc.ALL_UNITS,
   'ReplSet.pop is a known finding (D15). Consumer (de)serialisation is covered where the unit consumer.serialize is built.',
   lemmas=['C15-coverage'], modules=['contracts.bat_containers'], trusted=['T-BUILTIN'])
 
+P('C08', ['ResizableFile.write', 'ResizableFile.read', 'FileJournal.add', 'FileJournal.clear', 'FileJournal.deleteEntriesFrom',
+          'FileJournal.deleteEntriesTo', 'FileJournal.reopen', 'FileJournal.access', 'MemoryJournal'],
+  'FileJournal refines the list MemoryJournal implements under the abstraction function of DESIGN §C08 (file image as byte function + '
+  'ghost record offsets): every operation re-establishes Rep with the whole view the list operation gives; reopening decodes the '
+  'view; crash conditions are obligations at every primitive store (old-or-new view for add, header-only stores for the deletions).',
+  'Unbounded in record count, record sizes and offsets (< 2^32, A-RANGE). struct.pack bytes are uninterpreted with the round-trip '
+  'axiom (T-STRUCT); mmap semantics trusted (T-MMAP); a 4-byte header store is atomic w.r.t. process kill (A-HDR-ATOMIC). '
+  'deleteEntriesTo is not kill-safe (known finding D8). File opening in ResizableFile.__init__/MetaStorer is not under contract.',
+  modules=['contracts.journal_units'], trusted=['T-STRUCT', 'T-MMAP', 'T-RENAME'],
+  assumptions=['A-RANGE', 'A-HDR-ATOMIC', 'kill = process kill, not power loss'])
+
 NOT_BUILT.update({
     'C07': 'term and vote are not persisted by the code at all (syncobj.py __init__ assigns 0/None, .meta holds only the commit index): the '
            'single obligation fails by construction; recorded as known finding D10 in DESIGN.md/known_findings.json rather than claimed as a check',
